@@ -71,74 +71,8 @@ def _writes(s, l):
     return isinstance(s.get("place"), dict) and s["place"].get("l") == l
 
 
-def thread_function(f):
-    blocks = f["blocks"]
-    taken = _address_taken(f)
-    # temporaries copied inside a join block must not be read anywhere else (they are skipped on the threaded path)
-    n = 0
-    changed = True
-    rounds = 0
-    while changed and rounds < 8:
-        changed = False
-        rounds += 1
-        joins = {}
-        for i, b in enumerate(blocks):
-            if b.get("cleanup"):
-                continue
-            l = _switch_source(b)
-            if l is None or l in taken:
-                continue
-            if b["stmts"] and not _temps_private(f, i, b):
-                continue
-            joins[i] = l
-        if not joins:
-            break
-        for i, b in enumerate(blocks):
-            if b.get("cleanup") or b["term"]["k"] != "goto":
-                continue
-            j = b["term"]["t"]
-            hops = 0
-            while j not in joins and hops < 3 and not blocks[j]["stmts"] and blocks[j]["term"]["k"] == "goto" and not blocks[j].get("cleanup"):
-                j = blocks[j]["term"]["t"]
-                hops += 1
-            if j not in joins or j == i:
-                continue
-            l = joins[j]
-            val = None
-            for s in reversed(b["stmts"]):
-                if _writes(s, l):
-                    val = _const_bool(s, l)
-                    break
-            if val is None:
-                continue
-            t = blocks[j]["term"]
-            tgt = None
-            for v, bb in t["targets"]:
-                if bool(v) == val:
-                    tgt = bb
-            if tgt is None:
-                vals = [bool(v) for v, _ in t["targets"]]
-                if val not in vals:
-                    tgt = t["otherwise"]
-            if tgt is None or tgt == i:
-                continue
-            b["term"] = dict(b["term"], t=tgt, threaded=j)
-            n += 1
-            changed = True
-    return n
-
-
-def _temps_private(f, i, b):
-    """every temporary assigned by the copy statements of join block i is used only inside that block"""
-    temps = set(s["lhs"]["l"] for s in b["stmts"])
-    named = set()
-    for dbg in f.get("debug", []):
-        pl = (dbg.get("val") or {}).get("place") if isinstance(dbg, dict) else None
-        if isinstance(pl, dict):
-            named.add(pl.get("l"))
-    if temps & named:
-        return False
-
+def _uses_outside(f, temps, inside):
+    """some local of `temps` is read or written in a block that is not in `inside`"""
     def uses(x):
         if isinstance(x, list):
             return any(uses(y) for y in x)
@@ -150,11 +84,92 @@ def _temps_private(f, i, b):
             return any(uses(v) for v in x.values())
         return False
     for k, ob in enumerate(f["blocks"]):
-        if k == i:
+        if k in inside:
             continue
         if uses(ob["stmts"]) or uses(ob["term"]):
-            return False
-    return True
+            return True
+    return False
+
+
+def _copy_only(b, known):
+    """the statements of b are all plain copies `x = copy/move y` of locals whose constant value is known: returns {x: value} or None"""
+    out = {}
+    for s in b["stmts"]:
+        if s["k"] != "assign" or not _is_local(s["lhs"]) or s["rv"]["k"] != "use":
+            return None
+        src = _op_place(s["rv"].get("op"))
+        if not _is_local(src):
+            return None
+        v = out.get(src["l"], known.get(src["l"]))
+        if v is None:
+            return None
+        out[s["lhs"]["l"]] = v
+    return out
+
+
+def thread_function(f):
+    blocks = f["blocks"]
+    taken = _address_taken(f)
+    n = 0
+    for _round in range(8):
+        changed = False
+        for i, b in enumerate(blocks):
+            if b.get("cleanup") or b["term"]["k"] != "goto":
+                continue
+            # constant booleans known at the end of b
+            known = {}
+            for s in b["stmts"]:
+                if s["k"] == "assign" and _is_local(s["lhs"]):
+                    l = s["lhs"]["l"]
+                    v = _const_bool(s, l)
+                    if v is not None and l not in taken:
+                        known[l] = v
+                    else:
+                        known.pop(l, None)
+                elif isinstance(s.get("lhs"), dict):
+                    known.pop(s["lhs"].get("l"), None)
+            if not known:
+                continue
+            j = b["term"]["t"]
+            skipped = []       # blocks whose (copy-only) statements are bypassed
+            temps = set()      # locals they assign
+            tgt = None
+            for _hop in range(5):
+                if j == i or j in skipped or blocks[j].get("cleanup"):
+                    break
+                cb = blocks[j]
+                cp = _copy_only(cb, known)
+                if cp is None:
+                    break
+                if any(x in taken for x in cp):
+                    break
+                known = dict(known); known.update(cp)
+                temps |= set(cp)
+                skipped.append(j)
+                t = cb["term"]
+                if t["k"] == "goto":
+                    j = t["t"]
+                    continue
+                if t["k"] == "switch" and t.get("dty") == "bool":
+                    pl = _op_place(t["discr"])
+                    if _is_local(pl) and pl["l"] in known:
+                        val = known[pl["l"]]
+                        for v, bb in t["targets"]:
+                            if bool(v) == val:
+                                tgt = bb
+                        if tgt is None and val not in [bool(v) for v, _ in t["targets"]]:
+                            tgt = t["otherwise"]
+                break
+            if tgt is None or tgt == i:
+                continue
+            if temps and _uses_outside(f, temps, set(skipped)):
+                continue
+            b["term"] = dict(b["term"], t=tgt, threaded=skipped[-1])
+            n += 1
+            changed = True
+        if not changed:
+            break
+    return n
 
 
 def normalize_program(d):
